@@ -92,6 +92,10 @@ func (c *context) collectEnvInputs(m *manifestBuilder) {
 		llgoWasiThreads,
 		llgoStdioNobuf,
 		llgoFullRpath,
+		// internal/clang.(*Cmd).Compile prepends these to every clang command
+		// line that compiles a package's C side files and its LLVM IR.
+		"CCFLAGS",
+		"CFLAGS",
 	}
 	for _, envVar := range envVars {
 		if v := os.Getenv(envVar); v != "" {
